@@ -5,6 +5,7 @@ CONSTANTS
   InitSeq <- MCInit
   InitTok <- MCInitTok
   InitRaw = {}
+  SubOf <- MCSub
   HasLF0 = TRUE
   HasAT0 = FALSE
   Slack = 2
